@@ -137,7 +137,8 @@ func runC11(c *core.Ctx) {
 	if len(m.Agencies) < 2 {
 		m.Agencies = append(m.Agencies, sgen.Agency{ID: "second-agency", Name: "Second", URL: "http://second", TZ: "Asia/Tokyo"})
 	}
-	m.OmitEmptyOptional = false
+	// calendar.txt / calendar_dates.txt may be missing from the archive altogether when they have no rows
+	m.OmitEmptyOptional = r.Bool()
 
 	zones := r.Perm(len(sgen.Zones))[:6]
 	for _, zi := range zones {
